@@ -24,11 +24,11 @@ if [ -n "$demo" ]; then
   cp "$demo" "$wt/$place"
   pkg=$(dirname "$place")
   tname=$(basename "$place")
-  echo "== demo WITHOUT change:"; (cd $wt && go test -vet=off -count=1 ${DEMOFLAGS:-} ./$pkg 2>&1 | tail -3)
+  echo "== demo WITHOUT change:"; (cd $wt && go test -vet=off -count=1 -run '(?i)verifdemo' ${DEMOFLAGS:-} ./$pkg 2>&1 | tail -3)
 fi
 if ! git -C $wt apply "$patch"; then echo "PATCH DOES NOT APPLY"; exit 2; fi
 if [ -n "$demo" ]; then
-  echo "== demo WITH change:"; (cd $wt && go test -vet=off -count=1 ${DEMOFLAGS:-} ./$pkg 2>&1 | tail -4)
+  echo "== demo WITH change:"; (cd $wt && go test -vet=off -count=1 -run '(?i)verifdemo' ${DEMOFLAGS:-} ./$pkg 2>&1 | tail -4)
   rm -f "$wt/$place"
 fi
 if [ $suite = 1 ]; then
